@@ -30,9 +30,9 @@ PROP = "C13"
 # features of the hidden model that keep the structure regular (every element name used consistently)
 FEATURES = ["none", "no-namespace", "unqualified-elements", "qualified-attributes", "occurs-0-unbounded", "occurs-1-unbounded", "occurs-2-3", "choice", "choice-repeating",
             "sequence-repeating", "nested-anonymous", "attr-required", "attr-default", "nillable", "mixed", "typed-values", "import", "simple-content", "recursion",
-            "enum-string", "list-type", "binary-values"]
+            "enum-string", "list-type", "binary-values", "optional-run", "foreign-child-local-grandchild", "foreign-child-local-grandchild-no-namespace"]
 # canonical spellings only (the property: "values are spelled canonically")
-CANON = {"boolean": ["true", "false"], "decimal": ["1.5", "-0.25"], "float": ["1.5", "-2.5"], "dateTime": ["2020-01-02T03:04:05", "1999-12-31T23:59:59.500Z"],
+CANON = {"boolean": ["true", "false"], "decimal": ["1.5", "-0.25", "3"], "float": ["1.5", "-2.5"], "dateTime": ["2020-01-02T03:04:05", "1999-12-31T23:59:59.500Z"],
          "gYear": ["2001", "1999Z"], "hexBinary": ["0AFF", "00"], "NMTOKENS": ["a b", "c"], "QName": ["xs:string"]}
 
 
@@ -372,7 +372,7 @@ def run(tier: str, seed: int) -> int:
         for v in vecs:
             tasks.extend(split_deep(("c13.xml", dict(vec=v, maxfeat=maxfeat, nsamples=nsamples), dev, ()), short=2, rounds=2))
     # JSON: hidden key->kind models with <= jm deviations x sample sets with <= jd non-default answers
-    jm, jd, jn = (3, 3, 3) if th else (2, 2, 2)
+    jm, jd, jn = (3, 2, 3) if th else (2, 2, 2)
     jvecs = []
     explore(lambda ch: gen_jschema(ch), jm, lambda ch, sch: jvecs.append(list(ch.choices)))
     for v in jvecs:
